@@ -795,6 +795,10 @@ def check_azel(ctx: Ctx):
             dirtol = 4 * 2.3e-16 * (float(np.linalg.norm(trs_rows[i])) + nd) / nd + 1e-15
             horiz = math.cos(el[i]) if abs(el[i]) < PI / 2 else 0.0
             aztol = dirtol / max(horiz, 1e-9)
+            u_ = d / nd
+            horiz_true = math.hypot(float(np.dot(u_, e2t[i][:, 0])), float(np.dot(u_, e2t[i][:, 1])))
+            if horiz_true <= 8 * dirtol:
+                aztol = math.inf  # target at the zenith / nadir within rounding: the azimuth is not defined
             eltol = dirtol / max(horiz, math.sqrt(dirtol))  # asin is ill-conditioned at +-1
             daz = abs((az[i] - maz + PI) % (2 * PI) - PI)
             if daz > aztol or abs(el[i] - mel) > eltol or abs(zd[i] - mzd) > eltol:
